@@ -21,15 +21,10 @@ Theorem C16_limit_with_edns : forall c hint, hint_ok hint ->
 Proof. exact top_limit_with_edns. Qed.
 Print Assumptions C16_limit_with_edns.
 
-Theorem C16_limit_is_property_text_once_fixed : trunc_no_opt_is_min = true ->
-  forall client hint, hint_ok hint -> udp_limit client hint = Ok (text_limit client hint).
+Theorem C16_limit_is_property_text : forall client hint, hint_ok hint ->
+  udp_limit client hint = Ok (text_limit client hint).
 Proof. exact top_limit_is_text. Qed.
-Print Assumptions C16_limit_is_property_text_once_fixed.
-
-Theorem C16_limit_no_edns_refuted : trunc_no_opt_is_min = false ->
-  exists h, cfg_min <= h <= cfg_max /\ udp_limit None (Some h) = Ok h /\ text_limit None (Some h) < h.
-Proof. exact top_limit_no_edns_refuted. Qed.
-Print Assumptions C16_limit_no_edns_refuted.
+Print Assumptions C16_limit_is_property_text.
 
 Theorem C16_small_hint_refuted :
   exists c h, udp_limit (Some c) (Some h) = Ok 512 /\ text_limit (Some c) (Some h) < 512.
@@ -54,29 +49,51 @@ Print Assumptions C16_push_script_bound.
 (* ---- truncation and the UDP size bound ---- *)
 Theorem C16_udp_size_cases : forall rq hint m, mlen m <= 65535 ->
   (mlen m <= tmax rq hint /\ mlen (post rq hint m) = mlen m /\
-   tc_set (m_b2 (post rq hint m)) = tc_set (m_b2 m)) \/
-  (tmax rq hint < mlen m /\ mlen (post rq hint m) = mlen (trunc_form m) /\
+   tc_set (m_b2 (post rq hint m)) = tc_set (m_b2 m) /\
+   m_an (post rq hint m) = m_an m /\ m_ns (post rq hint m) = m_ns m /\ m_ar (post rq hint m) = m_ar m) \/
+  (tmax rq hint < mlen m /\ mlen (post rq hint m) = mlen (trunc_form (tmax rq hint) m) /\
    tc_set (m_b2 (post rq hint m)) = true /\
-   m_an (post rq hint m) = [] /\ m_ns (post rq hint m) = [] /\ m_ar (post rq hint m) = opt_list (m_ar m)).
+   m_an (post rq hint m) = [] /\ m_ns (post rq hint m) = [] /\
+   m_ar (post rq hint m) = trunc_ar (tmax rq hint) m).
 Proof. exact top_udp_size_cases. Qed.
 Print Assumptions C16_udp_size_cases.
 
+(* the truncated form, three ways: no OPT / the response's OPT when it fits /
+   the OPT without its options when only that fits *)
+Theorem C16_truncated_form_three_way : forall max m,
+  (trunc_ar max m = [] /\ mlen (trunc_form max m) = hq_len m) \/
+  (exists o, first_opt (m_ar m) = Some o /\ trunc_ar max m = [RROpt o] /\
+             mlen (trunc_form max m) = hq_len m + opt_len o /\ hq_len m + opt_len o <= max) \/
+  (exists o, first_opt (m_ar m) = Some o /\ trunc_ar max m = [RROpt (min_opt o)] /\
+             mlen (trunc_form max m) = hq_len m + 11 /\
+             max < hq_len m + opt_len o /\ hq_len m + 11 <= max).
+Proof. exact top_trunc_three_way. Qed.
+Print Assumptions C16_truncated_form_three_way.
+
+(* the response fits the limit unless header + questions alone exceed it; then it
+   is exactly header + questions with TC set *)
 Theorem C16_udp_size_bound : forall rq hint m, mlen m <= 65535 ->
-  mlen (trunc_form m) <= tmax rq hint -> mlen (post rq hint m) <= tmax rq hint.
+  (hq_len m <= tmax rq hint -> mlen (post rq hint m) <= tmax rq hint) /\
+  (tmax rq hint < hq_len m ->
+     mlen (post rq hint m) = hq_len m /\ tc_set (m_b2 (post rq hint m)) = true /\
+     m_an (post rq hint m) = [] /\ m_ns (post rq hint m) = [] /\ m_ar (post rq hint m) = []).
 Proof. exact top_udp_size_bound. Qed.
 Print Assumptions C16_udp_size_bound.
 
-Theorem C16_udp_size_bound_no_opt : forall rq cfg m r q,
-  rq_client rq = None -> m_qs m = [q] -> wf_q q -> hint_ok cfg -> mlen m <= 65535 ->
-  udp_response rq cfg m = Ok r -> mlen r <= trunc_max false cfg.
-Proof. exact top_udp_size_bound_no_opt. Qed.
-Print Assumptions C16_udp_size_bound_no_opt.
+(* one well-formed question (every ordinary response): within the property
+   text's limit, with or without EDNS, whatever the service produced *)
+Theorem C16_udp_size_bound_one_question : forall rq cfg m r q,
+  m_qs m = [q] -> wf_q q -> hint_ok cfg -> mlen m <= 65535 ->
+  udp_response rq cfg m = Ok r -> mlen r <= text_limit (rq_client rq) cfg.
+Proof. exact top_udp_size_bound_one_question. Qed.
+Print Assumptions C16_udp_size_bound_one_question.
 
-Theorem C16_udp_size_bound_refuted :
+(* what remains: 100 echoed questions are 712 octets against a limit of 512 *)
+Theorem C16_udp_size_bound_proviso_needed :
   exists rq cfg m r, mlen m <= 65535 /\ udp_response rq cfg m = Ok r /\
-    udp_limit (rq_client rq) cfg = Ok 512 /\ tc_set (m_b2 r) = true /\ 512 < mlen r.
-Proof. exact udp_size_bound_refuted. Qed.
-Print Assumptions C16_udp_size_bound_refuted.
+    udp_limit (rq_client rq) cfg = Ok 512 /\ tc_set (m_b2 r) = true /\ mlen r = 712.
+Proof. exact udp_size_bound_proviso_needed. Qed.
+Print Assumptions C16_udp_size_bound_proviso_needed.
 
 Theorem C16_tc_iff : forall rq hint m, mlen m <= 65535 ->
   tc_set (m_b2 (post rq hint m)) = true <-> (tmax rq hint < mlen m \/ tc_set (m_b2 m) = true).
@@ -92,7 +109,7 @@ Print Assumptions C16_dropped_implies_tc.
 Theorem C16_truncated_wellformed : forall rq hint m,
   mlen m <= 65535 -> rq_id rq < 65536 -> wf_resp m -> tmax rq hint < mlen m ->
   tc_set (m_b2 (post rq hint m)) = true /\ m_an (post rq hint m) = [] /\ m_ns (post rq hint m) = [] /\
-  m_ar (post rq hint m) = opt_list (m_ar m) /\ m_qs (post rq hint m) = m_qs m /\
+  m_ar (post rq hint m) = trunc_ar (tmax rq hint) m /\ m_qs (post rq hint m) = m_qs m /\
   parse_min (wire_msg (post rq hint m)) = Some (post rq hint m).
 Proof. exact top_truncated_wellformed. Qed.
 Print Assumptions C16_truncated_wellformed.
